@@ -30,7 +30,7 @@ CLAIMED = {
          "TLC model checking of the Disk allocation machine (real and small geometry, exhaustion runs, exhaustive length bookkeeping) + TLC-exported add-sequences replayed into DiskFile + TLC validation of per-add image deltas (Tr_Disk)", "7 C07/C08/C15"),
  "C09": ("spec/Host.tla AppendPreserves / AppendHappens / NeverLost checked by TLC on all command histories of depth 2 (thorough 3); replayed through the CLIs and, for boundary-length files up to a full medium and tapes past 161,280 bytes, through VirtualFile open/add/save on real temp files; after every step the host bytes are read by the specification's readers (every earlier file, in order, then the new one) and the hook events (exists, sniffed kind, wrote) are validated; file_util --list is a read-only action of the machine whose output must name exactly the files the abstract content holds (tool reader vs spec reader after every history prefix)",
          "TLC model checking of the Host command machine (table vs separately phrased properties, all histories of bounded depth) + TLC-exported command histories replayed through both CLIs + TLC validation of every step: contents read by the spec's tape / disk readers, VirtualFile hook events", "7 C09"),
- "C10": ("spec/Host.tla: the table Allowed(pre, cmd) of required post contents and, independently phrased, OnlyAppendModifies / CompleteImage; TLC checks the table against them over the full matrix {--to_bin,--to_cas,--to_dsk} x {append, not} x 8 kinds of existing target x both tools and all 2-step sequences; every first-step cell and a seeded sample of the sequences is replayed through assembler.py / file_util.py, bytes before/after compared, what was written is classified by the spec's readers, refusals must print a message",
+ "C10": ("spec/Host.tla: the table Allowed(pre, cmd) of required post contents and, independently phrased, OnlyAppendModifies / CompleteImage; TLC checks the table against them over the full matrix {--to_bin,--to_cas,--to_dsk} x {append, not} x 8 kinds of existing target x both tools and all 2-step sequences; every first-step cell and a seeded sample of the sequences is replayed through assembler.py / file_util.py, bytes before/after compared, what was written is classified by the spec's readers, refusals must print a message; one invocation naming the target under two switches is judged by the table composed with itself (Tr_Host AllowedSeq, write counts from the Save hook events; MC_Host SamePathTwice)",
          "TLC model checking of the Host command machine (table vs separately phrased properties, all histories of bounded depth) + TLC-exported command histories replayed through both CLIs + TLC validation of every step: contents read by the spec's tape / disk readers, VirtualFile hook events", "7 C10"),
  "C11": ("TLC enumerates the configuration space (name source x name shape x switches alone/combined x origin x image size x END operand); assembler.py is run on each, the .bin is compared with the API image and the .cas/.dsk are read by Tape!ParseTape / DiskBytes!ReadAll: one ML file, data = image, load = origin, entry, name rule, nothing created without a name; file_util --list must agree",
          "TLC-enumerated configurations replayed through assembler.py + TLC validation of the saved files with the spec's tape / disk readers (Tr_C11)", "7 C11"),
@@ -40,8 +40,8 @@ CLAIMED = {
          "TLC-exported histories replayed in warm and fresh interpreters + TLC validation with the memo machine (Tr_Session)", "7 C17"),
  "C18": ("Session!Relocated / Renamed / SameOutput / PrefixStable as operators over two recorded outputs; random accepted programs x {origin shift, label bijection, white space, comments, mnemonic case, suffix}; both assemblies are one pair trace judged by TLC; the reference assembler AsmRef is model-checked so the relations are known satisfiable",
          "TLC trace validation of pair traces (Tr_Pair) + TLC model checking of AsmRef", "7 C18"),
- "C19": ("spec/Include.tla: INCLUDE expansion as a stack machine, TLC checks it equals the recursive splice and rejects exactly cycles / missing files (with termination) on all 3-file configurations; random programs split into include trees (depth 3, every boundary), missing files and cycles are materialised in a temp dir and assembled versus the spliced file; Tr_Pair judges IncludeEquiv; include names spelled with ./ ../ a dot-file and an absolute path (decoys under the stripped names), and the same label-free file included several times",
-         "TLC model checking of the Include machine + include trees replayed on disk + TLC validation of (including, spliced) pair traces", "7 C19"),
+ "C19": ("spec/Include.tla: INCLUDE expansion as a stack machine, TLC checks it equals the recursive splice and rejects exactly cycles / missing files (with termination) on all 3-file configurations; random programs split into include trees (depth 3, every boundary), missing files and cycles are materialised in a temp dir and assembled versus the spliced file; Tr_Pair judges IncludeEquiv; include names spelled with ./ ../ a dot-file and an absolute path (decoys under the stripped names), and the same label-free file included several times; the initial states of MC_Include themselves (79,507 file sets: all in the thorough tier, 6,000 sampled per quick run) are written as real files, assembled through assembler.py and judged by Tr_Include against Include!Splice",
+         "TLC model checking of the Include machine + the model's own file sets (Gen_Include) and random include trees replayed on disk + TLC validation (Tr_Include against Include!Splice; Tr_Pair for (including, spliced) pairs)", "7 C19"),
 }
 NOT_YET = {}
 props = [json.loads(l) for l in open(V + "/properties.jsonl")]
